@@ -15,6 +15,7 @@ Programs are well-defined by construction:
     are built from ``+ - * /`` on leaves only, so that a last-bit difference of an
     intrinsic cannot flip a branch.
 """
+import re
 import struct
 from dataclasses import dataclass, field
 
@@ -162,6 +163,14 @@ class TPGen:
         if not positive and self.chance(0.25):
             return f'(-{t})', float(v)
         return t, float(v)
+
+    def kfix(self, t, kind):
+        """intrinsics need arguments of one kind: give a bare (default-kind) literal argument the kind suffix"""
+        if re.fullmatch(r'\(?-?[0-9]+\.[0-9]+\)?', t.strip()):
+            return re.sub(r'([0-9]+\.[0-9]+)', r'\1' + self.lit_suffix(kind), t.strip())
+        if self.f['mix_kinds'] and not re.fullmatch(r'\(?-?[0-9]+\.[0-9]+_\w+\)?', t.strip()):
+            return f'real({t}, kind={self.kname(kind)})'
+        return t
 
     def rfactor(self, t):
         """text of an integer expression used as right operand of ``*``"""
@@ -384,7 +393,7 @@ class TPGen:
             self.feat('real_mod')
             x, bx = self.real_expr(kind, min(depth - 1, 1), safe=True)
             d, bd = self.rlit(kind, positive=self.chance(0.7))
-            return f'mod({x}, {d})', min(bx, bd)
+            return f'mod({self.kfix(x, kind)}, {self.kfix(d, kind)})', min(bx, bd)
         if op == 'intr':
             fns = ['sqrt', 'exp', 'abs', 'min', 'max', 'min', 'max']
             if f['sign']:
@@ -401,14 +410,14 @@ class TPGen:
             if fn == 'exp':
                 if self.chance(0.5):
                     return f'exp(-abs({a}))', 1.0
-                return f'exp(min({a}, 3.0{self.lit_suffix(kind)}))', 20.1
+                return f'exp(min({self.kfix(a, kind)}, 3.0{self.lit_suffix(kind)}))', 20.1
             if fn == 'abs':
                 return f'abs({a})', ba
             if fn == 'sign':
                 b, bb = self.real_expr(kind, min(depth - 1, 1), safe=True)
-                return f'sign({a}, {b})', ba
+                return f'sign({self.kfix(a, kind)}, {self.kfix(b, kind)})', ba
             b, bb = self.real_expr(kind, depth - 1)
-            return f'{fn}({a}, {b})', max(ba, bb)
+            return f'{fn}({self.kfix(a, kind)}, {self.kfix(b, kind)})', max(ba, bb)
         return a, ba
 
     # ------------------------------------------------------------------ logical expressions
@@ -452,7 +461,7 @@ class TPGen:
         if v.typ == 'real':
             if bound > v.bound:
                 s = self.lit_suffix(v.kind)
-                return f'min(max({text}, -{v.bound}{s}), {v.bound}{s})'
+                return f'min(max({self.kfix(text, v.kind)}, -{v.bound}{s}), {v.bound}{s})'
         return text
 
     def rhs(self, v, depth=None):
@@ -867,7 +876,7 @@ class TPGen:
         tmod = self.tmod_text(custom) if need_tmod else ''
         inputs = [self.make_inputs(q) for q in range(4)]
         driver, outputs = self.driver_text(argnames, need_tmod, custom)
-        stdins = [self.stdin_text(inp) for inp in inputs]
+        stdins = [f'{len(inputs)}\n' + ''.join(self.stdin_text(inp) for inp in inputs)]
         argmeta = []
         for a in argnames:
             if a == 't':
@@ -970,7 +979,10 @@ class TPGen:
                 L.append(f'  {t} :: {v.name}')
         if f['derived']:
             L.append('  type(ttype) :: t')
-        L.append('  integer :: q')
+        L.append('  integer :: q, iset, nsets')
+        L.append('  read(*,*) nsets')
+        L.append('  do iset = 1, nsets')
+        L.append("  write(*,'(A,1X,I0)') '=== i', iset")
         # read in the order of the inputs dict: n, m, lo, then vars in self.vars order (skipping out/local/param)
         L.append('  read(*,*) n')
         L.append('  read(*,*) m')
@@ -1003,6 +1015,10 @@ class TPGen:
             else:
                 L.append(f"  write(*,'(A,1X,{fmt})') '{nm} {tag}', {v.ref}")
             outputs.append((nm, v.typ, v.kind, v.rank))
+        for v in decl_vars:
+            if v.rank:
+                L.append(f'  deallocate({v.name})')
+        L.append('  end do')
         L.append('contains')
         for tag, t, fmt in (('i', 'integer', 'I0'), ('l', 'logical', 'L1'), ('f', 'real(kind=real32)', 'ES16.8E3'),
                             ('d', 'real(kind=real64)', 'ES25.16E3')):
